@@ -148,6 +148,13 @@ def zoo_specs(tier, prop):
                         continue
                     specs.append(dict(cls='Union', member=cls, unit=unit, family=fam, d=d, n=n,
                                       enlarge=e, depth=3 if quick else 5, npm=d + 2))
+    # members with different cube/ellipsoid patterns poking through faces; tilted ellipsoids whose
+    # extent exceeds their axis intercepts (added for seeded changes C07-j, C10-j)
+    for cls in ('Ellipsoid', 'UnitCubeEllipsoidMixture'):
+        for fam, d, n in (('slabs', 2, 80), ('slabs', 3, 120), ('tilted', 2, 60), ('tilted', 3, 60)):
+            for e in ((1.1,) if quick else (1.01, 1.1, 2.0)):
+                specs.append(dict(cls='Union', member=cls, unit=True, family=fam, d=d, n=n,
+                                  enlarge=e, depth=3 if quick else 5, npm=d + 2))
     # unions with many members (two-digit member indices)
     for cls in ('Ellipsoid', 'UnitCubeEllipsoidMixture'):
         for d, n in (((2, 160),) if quick else ((2, 160), (3, 220))):
